@@ -76,6 +76,14 @@ def shards(tier, with_linkify_stub=True):
             sh.append(("inl", "all", f, 3, mi))
         for f in S.ATOMS_CORE:
             sh.append(("inl", "core", f, 5 if thorough else 4, mi))
+    # delimiter-run spaces and separator characters
+    for f in S.EMPH_ATOMS:
+        sh.append(("atoms", "emph", f, 8 if thorough else 7, 0))
+        sh.append(("atoms", "emph", f, 7 if thorough else 6, 1))
+    for f in S.STRIKE_ATOMS:
+        sh.append(("atoms", "strike", f, 7 if thorough else 6, 1))
+    for f in S.SEP_LEAVES:
+        sh.append(("sep", f))
     # configuration neighbourhoods on the core space
     cfgs = C.neighbourhood(2 if thorough else 1)
     step = 8 if thorough else 4
@@ -120,6 +128,21 @@ def iter_shard(sh):
         for s in S.strings_with_first(f, atoms, L):
             yield c, "doc", s
             yield c, "inline", s
+    elif kind == "atoms":
+        _, which, f, L, mi = sh
+        atoms = S.EMPH_ATOMS if which == "emph" else S.STRIKE_ATOMS
+        c = INL_CFGS[mi]
+        for s in S.strings_with_first(f, atoms, L):
+            yield c, "doc", s
+    elif kind == "sep":
+        _, f = sh
+        lines = [f] + S.LEAVES_TINY
+        for c in MAIN_CFGS:
+            for P in ("", "> ", "- "):
+                for d in S.docs_with_first(P + f, [P + l for l in lines] + lines, 2):
+                    yield c, "doc", d
+                for l in S.LEAVES_TINY:
+                    yield c, "doc", P + l + "\n" + P + f + "\n"
     elif kind == "cfgs":
         _, d, lo, hi = sh
         cfgs = C.neighbourhood(d)[lo:hi]
@@ -158,6 +181,9 @@ def describe(tier):
                          "leaves": S.LEAVES_SMALL if thorough else S.LEAVES_TINY,
                          "K4_contexts_tiny_leaves": ["> ", "- "] if thorough else []},
         "L_free": {"lines": S.FREE_LINES, "K": 3},
+        "I_delimiter_runs": {"emphasis_atoms": S.EMPH_ATOMS, "L": 8 if thorough else 7, "strike_atoms": S.STRIKE_ATOMS,
+                             "L_strike": 7 if thorough else 6},
+        "separator_leaves": S.SEP_LEAVES,
         "I": {"atoms_all": S.ATOMS, "L_all": 3, "atoms_core": S.ATOMS_CORE, "L_core": 5 if thorough else 4},
         "configs": {"d": 2 if thorough else 1, "count": len(C.neighbourhood(2 if thorough else 1)),
                     "core_docs": len(core_docs())},
